@@ -220,7 +220,7 @@ def ctx_visit_model(it, ctx, operation):
     return None
 
 
-I.register_model(ir.Context.__dict__["visit_objects"], ctx_visit_model)
+CASE_MODELS = [(ir.Context.__dict__["visit_objects"], ctx_visit_model)]  # case-level: other contract modules model visit_objects differently
 
 
 class ContextLoop(C.LoopSpec):
@@ -275,6 +275,7 @@ def add_event_case(kind, view, access):
         it.current_ctx = None
 
     c.setup = setup
+    c.models = CASE_MODELS
     con.cases.append(c)
 
 
@@ -298,6 +299,7 @@ def add_stream_case(name, stream, replay):
         it.current_ctx = None
 
     c.setup = setup
+    c.models = CASE_MODELS
     con.cases.append(c)
 
 
@@ -356,6 +358,7 @@ def add_instance_case(ports):
         it.case_block = case_block
 
     c.setup = setup
+    c.models = CASE_MODELS
 
     def spec(sx, *a):
         return C.ANY
